@@ -147,6 +147,20 @@ def stepLine (s : DState) (w : List String) : DState × String :=
         | [] => acc) (slot, [])
       ({ s with decs := upsert s.decs d r.1 }, "sel " ++ " | ".intercalate r.2)
     | ["pending"] => (s, showPending slot)
+    | ["access"] =>
+      let items := slot.last.map fun p =>
+        match p.payload with
+        | some pl =>
+          if pl.isValid then
+            match kindOfTy pl.ty with
+            | some k =>
+              match (kindAccess k).bind (fun a => a pl.data) with
+              | some vs => k ++ String.join (vs.map fun x => " " ++ showView x)
+              | none => k ++ " OOB"
+            | none => "-"
+          else "-"
+        | none => "-"
+      (s, s!"access {slot.last.length}" ++ String.join (items.map fun x => " | " ++ x))
     | _ => (s, "bad-op")
   | "fld" :: cls :: bg :: rest =>
     match Layout.all.find? (·.name == cls), (if bg == "default" then (Layout.all.find? (·.name == cls)).bind (fun c => ofHexChars c.dflt.toList) else parseBytes bg) with
@@ -190,6 +204,19 @@ def stepLine (s : DState) (w : List String) : DState × String :=
       let vers := batch.map (·.version)
       let dom := batch.all (fun p => p.wf) && !batch.isEmpty && vers.all (· == vers.headD 0)
       (s, if dom then s!"chk C01={P_C01 (nat! dev) (nat! stream) batch dec}" else "chk C01=na")
+  | ["val", k, hx] =>
+    match kindValid k, kindAccess k, parseBytes hx with
+    | some v, some a, some b =>
+      if v b then
+        match a b with
+        | some vs => (s, "valid=1" ++ String.join (vs.map fun x => " " ++ showView x))
+        | none => (s, "valid=1 OOB")
+      else (s, "valid=0")
+    | _, _, _ => (s, "bad-op")
+  | ["mkpkt", mt, hx] =>
+    match parseBytes hx with
+    | none => (s, "bad-op")
+    | some b => if msgValid b then (s, showPacket (Packet.ofMsg (nat! mt % 256) b)) else (s, "invalid")
   | ["tecmp", hx] =>
     match parseBytes hx with
     | none => (s, "bad-op")
